@@ -188,3 +188,72 @@ Proof.
   { eapply Forall2_imp; [|exact HF2]. intros a b ((A & B) & C). auto. }
   exact (dfs_isoP _ w w fuel root croot oids cids w w HI Ho Hc HF3).
 Qed.
+
+(* ------------------------------------------------------------------ the translation of a local file set *)
+Lemma set_mem_set_add y x l : set_mem y (set_add x l) = (y =? x) || set_mem y l.
+Proof.
+  induction l as [|z l IH]; cbn [set_add set_mem existsb]; [rewrite orb_false_r; reflexivity|].
+  destruct (x <? z); cbn [existsb]; [reflexivity|]. destruct (x =? z) eqn:E.
+  - apply N.eqb_eq in E. subst z. cbn [existsb]. destruct (y =? x); reflexivity.
+  - cbn [existsb]. change (existsb (N.eqb y) (set_add x l)) with (set_mem y (set_add x l)). rewrite IH.
+    change (existsb (N.eqb y) l) with (set_mem y l). destruct (y =? z), (y =? x); reflexivity.
+Qed.
+Lemma set_add_nonempty x l : is_empty (set_add x l) = false.
+Proof. destruct l as [|z l]; cbn [set_add]; [reflexivity|]. destruct (x <? z); [reflexivity|]. destruct (x =? z); reflexivity. Qed.
+
+(* every file g of the set has a record, its name is in the map, and it is mapped to nf exactly when it is f *)
+Definition MapsAlike (w : world) (fm : list (list N * N)) (f nf : N) (fs : list N) : Prop :=
+  forall g, In g fs -> exists gl ng, nth_opt (w_files w) (N.to_nat g) = Some gl /\ assoc_get (f_name gl) fm = Some ng /\
+                                     (ng = nf <-> g = f).
+
+Lemma translate_mem w fm f nf fs : MapsAlike w fm f nf fs ->
+  set_mem nf (translate_files w fm fs) = set_mem f fs.
+Proof.
+  induction fs as [|g fs IH]; intros H; cbn [translate_files]; [reflexivity|].
+  destruct (H g (or_introl eq_refl)) as (gl & ng & Hg & Hm & Hiff). rewrite Hg, Hm, set_mem_set_add.
+  rewrite IH by (intros g' Hg'; apply H; right; exact Hg'). cbn [set_mem existsb]. f_equal.
+  destruct (nf =? ng) eqn:E1, (f =? g) eqn:E2; try reflexivity.
+  - apply N.eqb_eq in E1. apply N.eqb_neq in E2. exfalso. apply E2. symmetry. apply Hiff. congruence.
+  - apply N.eqb_neq in E1. apply N.eqb_eq in E2. exfalso. apply E1. symmetry. apply Hiff. congruence.
+Qed.
+Lemma translate_empty w fm f nf fs : MapsAlike w fm f nf fs ->
+  is_empty (translate_files w fm fs) = is_empty fs.
+Proof.
+  destruct fs as [|g fs]; intros H; cbn [translate_files]; [reflexivity|].
+  destruct (H g (or_introl eq_refl)) as (gl & ng & Hg & Hm & _). rewrite Hg, Hm. apply set_add_nonempty.
+Qed.
+Lemma translate_ok w fm f nf fs : MapsAlike w fm f nf fs ->
+  passes_fs (Some f) fs = passes_fs (Some nf) (translate_files w fm fs).
+Proof. intros H. cbn [passes_fs]. rewrite (translate_mem _ _ _ _ _ H), (translate_empty _ _ _ _ _ H). reflexivity. Qed.
+
+Section Tail.
+Variable T : tables.
+Variable tab_el tab_at tab_en : nametab.
+Variable float_fmt : N -> list N.
+
+(* the last phase of duplicate(), run in a world w4 in which the two roots are equal up to node ids: file f of the
+   original and file nf of the copy get the same text, provided the file map treats every local file set of the
+   original alike (MapsAlike) *)
+Theorem duplicate_tail_text fm root croot w4 r w' f nf :
+  Iso w4 w4 root croot ->
+  (forall x y, Sub w4 root x -> Sub w4 croot y -> x <> y) ->
+  (forall l, dfs_ids (fuel_of w4) croot w4 = Val (OK l, w4) -> NoDup l) ->
+  (do w <- wget; do oids <- dfs_ids (fuel_of w) root; do cids <- dfs_ids (fuel_of w) croot;
+   dup_membership fm oids cids)%W w4 = Val (OK r, w') ->
+  (forall o on, Sub w4 root o -> w_nodes w4 o = Some on -> MapsAlike w4 fm f nf (n_files on)) ->
+  forall fuel indent inline,
+    ser_heap T tab_el tab_at tab_en float_fmt fuel w' (Some f) root indent inline =
+    ser_heap T tab_el tab_at tab_en float_fmt fuel w' (Some nf) croot indent inline.
+Proof.
+  intros HI Hdis HND H HM fuel indent inline.
+  apply wbind_inv in H as [(wg & w1 & E & H) | (e & E & [=])]. apply wget_inv in E as ([= ->] & ->).
+  apply wbind_inv in H as [(oids & w1 & Eo & H) | (e & E & [=])].
+  assert (w1 = w4) by (eapply ro_dfs_ids; eauto). subst w1.
+  apply wbind_inv in H as [(cids & w1 & Ec & H) | (e & E & [=])].
+  assert (w1 = w4) by (eapply ro_dfs_ids; eauto). subst w1.
+  destruct r. apply iso_text.
+  eapply (membership_phase fm (fuel_of w4) root croot oids cids w4 w'); eauto.
+  - intros o c Ho Hc. apply Hdis; [exact (dfs_ids_Sub _ _ _ _ _ Eo _ eq_refl _ Ho)|exact (dfs_ids_Sub _ _ _ _ _ Ec _ eq_refl _ Hc)].
+  - intros o on Ho Hon. apply translate_ok. apply (HM o on); [exact (dfs_ids_Sub _ _ _ _ _ Eo _ eq_refl _ Ho)|exact Hon].
+Qed.
+End Tail.
